@@ -60,7 +60,7 @@ func (m *RWMutex) TryRLock() bool {
 	m.w.Unlock()
 	return true
 }
-func (m *RWMutex) RUnlock() { m.readers.Add(-1) }
+func (m *RWMutex) RUnlock()        { m.readers.Add(-1) }
 func (m *RWMutex) RLocker() Locker { return (*rlocker)(m) }
 
 type rlocker RWMutex
